@@ -148,7 +148,12 @@ fn format_variant(
             _ => quote!(format!("{{ \"{}\": {} }}", #ts_name, #parsed_ty)),
         },
         (false, Tagged::Adjacently { .. }) => match &variant.fields {
-            Fields::Unnamed(unnamed) if unnamed.unnamed.len() == 1 => {
+            // a `type` or `as` on the variant itself overrides whatever the payload says
+            Fields::Unnamed(unnamed)
+                if unnamed.unnamed.len() == 1
+                    && variant_attr.type_as.is_none()
+                    && variant_attr.type_override.is_none() =>
+            {
                 let field = &unnamed.unnamed[0];
                 let field_attr = FieldAttr::from_attrs(&unnamed.unnamed[0].attrs)?;
 
@@ -183,7 +188,12 @@ fn format_variant(
                 quote! { #parsed_ty }
             }
             None => match &variant.fields {
-                Fields::Unnamed(unnamed) if unnamed.unnamed.len() == 1 => {
+                // a `type` or `as` on the variant itself overrides whatever the payload says
+                Fields::Unnamed(unnamed)
+                    if unnamed.unnamed.len() == 1
+                        && variant_attr.type_as.is_none()
+                        && variant_attr.type_override.is_none() =>
+                {
                     let field = &unnamed.unnamed[0];
                     let field_attr = FieldAttr::from_attrs(&unnamed.unnamed[0].attrs)?;
 
